@@ -29,8 +29,8 @@ def hookStep (u : Bool) (s : List Frame) (e : Ev) : Option (List Frame) :=
   match e, s with
   | .enter i _ _ _, s => some ((i, .fresh) :: s)
   | .start i _, (j, .fresh) :: s => if i = j then some ((j, .started) :: s) else none
-  | .apply i _ _, (j, .started) :: s => if i = j then some ((j, .acted) :: s) else none
-  | .apply0 i _, (j, .started) :: s => if i = j then some ((j, .acted) :: s) else none
+  | .apply i _ _ _, (j, .started) :: s => if i = j then some ((j, .acted) :: s) else none
+  | .apply0 i _ _, (j, .started) :: s => if i = j then some ((j, .acted) :: s) else none
   | .success i _, (j, .started) :: s => if i = j then some ((j, .closed 1) :: s) else none
   | .success i _, (j, .acted) :: s => if i = j then some ((j, .closed 1) :: s) else none
   | .failure i _, (j, .started) :: s => if i = j then some ((j, .closed 0) :: s) else none
@@ -38,6 +38,9 @@ def hookStep (u : Bool) (s : List Frame) (e : Ev) : Option (List Frame) :=
   | .unwind i _, (j, .started) :: s => if i = j then some ((j, .closed 2) :: s) else none
   | .unwind i _, (j, .acted) :: s => if i = j then some ((j, .closed 2) :: s) else none
   | .raise _ _, s => some s
+  | .sctor _, s => some s
+  | .ssucc _ _ _, s => some s
+  | .sdtor _, s => some s
   | .exit i r _, (j, st) :: s => if i = j ∧ exitOk u r st = true then some s else none
   | _, _ => none
 
@@ -65,6 +68,9 @@ theorem HL_closed (u : Bool) : RawClosed (HL u) where
   nil := fun _ => rfl
   app := fun ha hb s => by rw [runHooks_append, ha s]; exact hb s
   raise := fun _ _ _ => rfl
+  sctor := fun _ _ => rfl
+  ssucc := fun _ _ _ _ => rfl
+  sdtor := fun _ _ => rfl
 
 /-- Running a prefix that is itself balanced does not disturb the stack. -/
 theorem runHooks_HL {u : Bool} {l : List Ev} (h : HL u l) (s : List Frame) (rest : List Ev) :
@@ -72,10 +78,10 @@ theorem runHooks_HL {u : Bool} {l : List Ev} (h : HL u l) (s : List Frame) (rest
   rw [runHooks_append, h s]; rfl
 
 /-- The tail `afterBody` adds after the body's trace, run on the frame `(i, started)`. -/
-theorem afterBody_hooks (cx : Ctx) (i : Nat) (a : AMode) (act : ActionSpec) (saved : Cursor) (r : Ret) (s : List Frame)
+theorem afterBody_hooks (cx : Ctx) (i : Nat) (a : AMode) (act : ActionSpec) (sd : Nat) (saved : Cursor) (r : Ret) (s : List Frame)
     (hin : HL cx.unwind r.raw) :
-    ∃ stt, runHooks cx.unwind ((i, .started) :: s) (afterBody cx i a act saved r).raw = some ((i, stt) :: s) ∧
-      exitOk cx.unwind (afterBody cx i a act saved r).res.code stt = true := by
+    ∃ stt, runHooks cx.unwind ((i, .started) :: s) (afterBody cx i a act sd saved r).raw = some ((i, stt) :: s) ∧
+      exitOk cx.unwind (afterBody cx i a act sd saved r).res.code stt = true := by
   unfold afterBody
   split
   · -- exception in the body
@@ -134,7 +140,7 @@ theorem nodeCore_hooks {rec : Rec} (cx : Ctx) (hrec : QRec (HL cx.unwind) rec) (
   · simp only [Option.map_eq_some_iff] at h
     obtain ⟨r0, h0, rfl⟩ := h
     have hq := body_raw (HL_closed cx.unwind) hrec cx k _ _ _ _ _ _ h0
-    obtain ⟨stt, h1, h2⟩ := afterBody_hooks cx i a (cx.actOf env i nd) st.cur r0 s hq
+    obtain ⟨stt, h1, h2⟩ := afterBody_hooks cx i a (cx.actOf env i nd) env.sd st.cur r0 s hq
     refine ⟨stt, ?_, by simpa using h2⟩
     simp only [guardRestore_raw, runHooks, hookStep, if_true]
     exact h1
@@ -178,6 +184,21 @@ theorem nodeCall_hooks {rec : Rec} (cx : Ctx) (hrec : QRec (HL cx.unwind) rec) (
           · rw [hok] at he
             cases stt <;> simp_all [exitOk, Res.code]
         · exact ⟨stt, hr, he⟩
+      · simp only [Option.map_eq_some_iff] at h0
+        obtain ⟨r1, h1, rfl⟩ := h0
+        obtain ⟨stt, hr, he⟩ := nodeCore_hooks cx hrec k i nd a m _ st r1 s h1
+        refine ⟨stt, ?_, he⟩
+        unfold stateScope
+        simp only [List.cons_append, runHooks, hookStep, List.append_assoc]
+        rw [runHooks_append, hr]
+        split <;> simp [runHooks, hookStep]
+      · simp only [Option.map_eq_some_iff] at h0
+        obtain ⟨r1, h1, rfl⟩ := h0
+        refine ⟨.fresh, ?_, rfl⟩
+        unfold stateScope
+        simp only [List.cons_append, runHooks, hookStep, List.append_assoc]
+        rw [runHooks_append, hrec _ _ _ _ _ _ h1 _]
+        split <;> simp [runHooks, hookStep]
     obtain ⟨stt, hr, he⟩ := key
     simp only [bracket, dropOnFail_raw, dropOnFail_res, runHooks, hookStep, List.cons_append]
     rw [runHooks_append, hr]
